@@ -321,7 +321,7 @@ impl<'w> Exec for Exec07<'w> {
             _ => {
                 let Some(slot) = op.iter_slot() else { return StepOut::skipped() };
                 let Some(Some(st)) = self.iters.get_mut(slot) else { return StepOut::skipped() };
-                let last_peek = st.last_peek.take();
+                let last_peek = st.last_peek.clone();
                 let out = match op {
                     Op::Next { .. } => match guarded(|| st.it.next_tok()) {
                         Ok(t) => {
@@ -461,6 +461,11 @@ impl<'w> Exec for Exec07<'w> {
                     },
                     _ => StepOut::skipped(),
                 };
+                if !matches!(op, Op::PeekN { .. }) {
+                    if let Some(Some(st)) = self.iters.get_mut(slot) {
+                        st.last_peek = None;
+                    }
+                }
                 if matches!(out.obs, Obs::Panic(_)) {
                     // an iterator that panicked is in an unknown state: drop it
                     self.iters[slot] = None;
